@@ -287,7 +287,16 @@ def reqalloc(ctx):
     _expect(ctx, "R32.request-fits", c, ["request_bad"], ["request_good"])
 
 
-ALL = {"reqalloc": reqalloc, "fieldfit": fieldfit, "stalefield": stalefield, "hidden": hidden, "region_args": region_args, "widen": widen, "progress": progress, "lazyinit": lazyinit, "lanes": lanes, "atomic": atomic, "feasible": feasible, "endian": endian, "units": units, "alloc": alloc, "status": status, "ownership": ownership, "cursor": cursor, "arrays": arrays,
+def signedoff(ctx):
+    from .rules import signedoff as so
+    P = program()
+    c = _sub()
+    n = so.check(c, [P.fn("signed_off_bad"), P.fn("signed_off_good")])
+    ctx.control("R33.signed-offset finds the control uses", n >= 4, str(n))
+    _expect(ctx, "R33.signed-offset", c, ["signed_off_bad"], ["signed_off_good"])
+
+
+ALL = {"signedoff": signedoff, "reqalloc": reqalloc, "fieldfit": fieldfit, "stalefield": stalefield, "hidden": hidden, "region_args": region_args, "widen": widen, "progress": progress, "lazyinit": lazyinit, "lanes": lanes, "atomic": atomic, "feasible": feasible, "endian": endian, "units": units, "alloc": alloc, "status": status, "ownership": ownership, "cursor": cursor, "arrays": arrays,
        "recursion": recursion, "narrowing": narrowing, "skeleton": skeleton, "must_pass": must_pass}
 
 
